@@ -149,7 +149,7 @@ def po_vs_mo(chk, work, count, stats):
     H.ready()
     found = []
     for _ in range(count):
-        cat = G.gen_catalog(rng, po_features=False, fully_translated=True)
+        cat = G.gen_catalog(rng, po_features=False, fully_translated=True, date_bias=True)
         css = G.charsets_for(cat)
         if not css:
             continue
@@ -168,6 +168,15 @@ def po_vs_mo(chk, work, count, stats):
         if tp[0] == 'ok':
             stats['exemption_seen'] += M.MO_EXEMPT in tp[1]
             stats['po_mo_with_diagnostics'] += bool(tp[1])
+        # "both loaders produce the same polib entry model": what the checker can observe of each entry
+        vp, vm = M.entry_views(work.path(d + '/x.po')), M.entry_views(work.path(d + '/x.mo'))
+        stats['entry_view_pairs'] += 1
+        if vp != vm:
+            k = next((i for i in range(max(len(vp), len(vm))) if vp[i:i + 1] != vm[i:i + 1]), None)
+            found.append(dict(_pair_replay('po-vs-mo-entry-view', cat, po, mo, tp, tm, {'charset': cs, 'layout': lay}, d + '/x.{po,mo}'),
+                              entry_index=k, po_view=repr(vp[k:k + 1])[:600], mo_view=repr(vm[k:k + 1])[:600]))
+            if len(found) >= 3:
+                return found
         np_ = M.drop(tp, exact=[M.MO_EXEMPT])
         if np_ != tm:
             found.append(_pair_replay('po-vs-mo', cat, po, mo, tp, tm, {'charset': cs, 'layout': lay, 'modulo': 'no-date-header-field POT-Creation-Date on the PO side'}, d + '/x.{po,mo}'))
@@ -242,15 +251,21 @@ def _pkg_replay(kind, deb, members, symlinks, extra):
     r.update(extra)
     return r
 
-def check_package(work, name, members, symlinks, dirs, stats, sequence=False, inject=False, via_cli=False, keep=None):
+def check_package(work, name, members, symlinks, dirs, stats, sequence=False, inject=False, via_cli=False, keep=None, source=False):
     """one package through the real tool → list of discrepancies (empty = the clause holds on it)"""
     M.H.ready()
     from lib import cli
     found = []
     other = work.write('plain/other.txt', b'just a text file\n')
     try:
-        deb = M.build_deb(work, name, members, symlinks, dirs)
-        xroot = M.extract_deb(work, deb, name)
+        if source:
+            deb = M.build_dsc(work, name, members, symlinks, dirs)
+            xroot = M.extract_dsc(work, deb, name)
+            members = dict(members, **M.DSC_FILES)
+            stats['source_packages'] += 1
+        else:
+            deb = M.build_deb(work, name, members, symlinks, dirs)
+            xroot = M.extract_deb(work, deb, name)
     except common.Infra as exc:
         stats['build_failed'] += 1
         stats['build_error:' + str(exc)[:80]] += 1
@@ -342,7 +357,11 @@ def packages(chk, work, count, stats, cli_every=4, keep=None):
         members, symlinks, dirs = gen_package(rng, idx)
         if idx % 2 == 0:
             members[rng.choice(['usr/share/gizmo/nested.deb', 'nested.deb', 'usr/share/doc/gizmo/a b.deb'])] = inner_bytes
-        found += check_package(work, f'pkg{idx}', members, symlinks, dirs, stats, sequence=idx % 3 == 0, inject=idx % 4 == 1, via_cli=idx % cli_every == 0, keep=keep)
+        source = idx % 5 == 4
+        if source:       # a source package: relative symlink targets only (dpkg-source refuses others), no nested binary package needed
+            symlinks = [(a, b) for a, b in symlinks if not b.startswith('/')]
+        found += check_package(work, f'pkg{idx}', members, symlinks, dirs, stats, sequence=idx % 3 == 0, inject=idx % 4 == 1, via_cli=idx % cli_every == 0, keep=keep,
+                               source=source)
         if found:
             return found
     # a file that is not a package, a truncated package: reported as a plain file, nothing left behind
